@@ -1120,10 +1120,13 @@ func (g *Gen) opTwinQueries() bool {
 	}
 	l := cands[g.pick(len(cands))]
 	r1, r2 := g.extraRels(l, 1), g.extraRels(l, 1)
+	for i := 0; i < 4 && r2 == r1; i++ { // two different per-query targets whenever there are two
+		r2 = g.extraRels(l, 1)
+	}
 	if r1 == "" || r2 == "" {
 		return false
 	}
-	if g.chance(0.7) {
+	if g.chance(0.85) {
 		g.emit(fmt.Sprintf("setrelb f%d m nofn%s %s", l, g.extraRels(l, 1), strings.TrimPrefix(strings.Split(r1, ",")[0], " rel=")))
 	}
 	q1, q2 := g.nextQuery, g.nextQuery+1
